@@ -49,6 +49,7 @@ var pieces = []string{
 	"\"\\\"?\"", // 12 same, double quotes
 	"/* ' */",   // 13 a quote character inside a comment
 	"`c'`",      // 14 a quote character inside a quoted identifier
+	"'\"?'",     // 15 ? after the other quote character inside a string
 }
 
 var skeletons = [][2]string{
